@@ -540,14 +540,16 @@ fn gen_match(b: &mut Builder, r: &mut Rng, depth: u32) -> E {
 /// 33..48 failing operands of one `||` chain, then a truthy one: every failure is absorbed,
 /// every operand evaluated once, the result is true (absorbing a failure must not use anything up)
 fn gen05_long_chain(b: &mut Builder, r: &mut Rng) -> E {
-    let n = 33 + r.usize(16);
+    let n = 45 + r.usize(26);
     let shared = {
         let c = inj_class(r);
         b.site(vec![Answer::Fail(c)])
     };
     let mut e: Option<E> = None;
     for i in 0..n {
-        let op = match r.below(5) {
+        // mostly operands whose failure arises in a nested evaluation (a stored program, the
+        // argument of has)
+        let op = match r.weighted(&[1, 1, 3, 3, 1]) {
             0 => E::Call(shared, vec![]),
             1 => b.unbound(),
             2 => {
